@@ -133,6 +133,25 @@ def family(rng, idx):
     return base, members
 
 
+def falsy_family():
+    """URLs that are falsy or nearly so: nothing but a scheme, nothing at all, a lone delimiter.  They differ in ONE component like any
+    other near-collision family, and every 'empty' shortcut in ==, hash or ordering meets them."""
+    from yarl import URL
+
+    texts = ["", "mailto:", "tel:", "x:", "MAILTO:", "a:", "?", "#", "http:", "foo:", "/", "//", "a", "x:/", "x:?q", "x:#f", "mailto:?", "?q", "#f", ".", "x:a"]
+    members = [(("ctor", t), (lambda t=t: URL(t))) for t in texts]
+    members += [(("ctor-encoded", t), (lambda t=t: URL(t, encoded=True))) for t in texts[:12]]
+    for sch in ("mailto", "x-app", "", "tel"):
+        members.append((("build-scheme", sch), lambda sch=sch: URL.build(scheme=sch)))
+        members.append((("build-scheme-encoded", sch), lambda sch=sch: URL.build(scheme=sch, encoded=True)))
+        members.append((("pickle-scheme", sch), lambda sch=sch: pickle.loads(pickle.dumps(URL.build(scheme=sch)))))
+    members.append((("splitresult", "x"), lambda: URL(SplitResult("x", "", "", "", ""), encoded=True)))
+    members.append((("with_query(None)", "x:?q"), lambda: URL("x:?q").with_query(None)))
+    members.append((("with_fragment(None)", "tel:#f"), lambda: URL("tel:#f").with_fragment(None)))
+    members.append((("with_path('')", "mailto:a"), lambda: URL("mailto:a").with_path("")))
+    return "<falsy>", members
+
+
 def _rebuild(u):
     from yarl import URL
 
@@ -148,9 +167,9 @@ def run(ctx):
 
     r = ctx.rng
     nfam = ctx.params["families"]
-    for fi in range(nfam):
+    for fi in range(-1, nfam):
         idx = fi * ctx.nshards + ctx.shard
-        base, members = family(r, idx)
+        base, members = family(r, idx) if fi >= 0 else falsy_family()
         objs = []
         for label, th in members:
             u = guarded(th)
